@@ -71,6 +71,13 @@ pub struct Scenario {
     /// 0 = prog.blots / out.json; 1 = names with a space; 2 = in a sub-directory; 3 = non-ASCII names
     #[serde(default)]
     pub path_style: u8,
+    /// a byte that is not valid UTF-8 (0xFF) inserted at this offset (mod length) of the script
+    /// bytes (file and -e modes; an inline script is an argument and stays as it is)
+    #[serde(default)]
+    pub script_bad_byte: Option<u32>,
+    /// the same for the stdin inputs document
+    #[serde(default)]
+    pub stdin_bad_byte: Option<u32>,
 }
 
 #[derive(Clone, Debug)]
@@ -443,6 +450,25 @@ pub fn gen_scenario(rng: &mut Rng) -> Scenario {
         flag_eq: rng.chance(1, 4),
         script_first: rng.chance(1, 4),
         path_style: if rng.chance(2, 3) { 0 } else { rng.below(4) as u8 },
+        script_bad_byte: if rng.chance(1, 30) { Some(rng.below(4096) as u32) } else { None },
+        stdin_bad_byte: if rng.chance(1, 25) { Some(rng.below(4096) as u32) } else { None },
+    }
+}
+
+fn with_bad_byte(mut bytes: Vec<u8>, at: Option<u32>) -> Vec<u8> {
+    if let Some(a) = at {
+        let pos = a as usize % (bytes.len() + 1);
+        bytes.insert(pos, 0xFF);
+    }
+    bytes
+}
+
+/// The stdin inputs document as the process gets it.
+fn stdin_as_given(sc: &Scenario) -> StdinKind {
+    match (&sc.stdin, sc.stdin_bad_byte) {
+        (StdinKind::Pipe(b), Some(_)) if !b.is_empty() => StdinKind::Pipe(with_bad_byte(b.clone(), sc.stdin_bad_byte)),
+        (StdinKind::File(b), Some(_)) if !b.is_empty() => StdinKind::File(with_bad_byte(b.clone(), sc.stdin_bad_byte)),
+        (other, _) => other.clone(),
     }
 }
 
@@ -465,7 +491,7 @@ pub fn invocation(sc: &Scenario) -> Invocation {
     let mut argv: Vec<String> = vec![];
     let mut files = vec![];
     let mut dirs = vec![];
-    let mut stdin = sc.stdin.clone();
+    let mut stdin = stdin_as_given(sc);
     for f in &sc.flags {
         if sc.flag_eq {
             argv.push(format!("--input={}", f));
@@ -529,13 +555,13 @@ pub fn invocation(sc: &Scenario) -> Invocation {
     let pos = if sc.script_first { 0 } else { argv.len() };
     match sc.mode {
         Mode::File => {
-            files.push((prog_name.clone(), src.into_bytes()));
+            files.push((prog_name.clone(), with_bad_byte(src.into_bytes(), sc.script_bad_byte)));
             argv.insert(pos, prog_name.clone());
         }
         Mode::Inline => argv.insert(pos, src),
         Mode::EvalStdin => {
             argv.push(if sc.long_flags { "--evaluate".into() } else { "-e".into() });
-            stdin = StdinKind::Pipe(src.into_bytes());
+            stdin = StdinKind::Pipe(with_bad_byte(src.into_bytes(), sc.script_bad_byte));
         }
     }
     Invocation {
@@ -605,7 +631,7 @@ fn delivered_stdin(sc: &Scenario, rr: &RunResult) -> Option<Vec<u8>> {
     if sc.mode == Mode::EvalStdin {
         return None;
     }
-    match &sc.stdin {
+    match &stdin_as_given(sc) {
         StdinKind::DevNull => Some(vec![]),
         StdinKind::Dir => Some(vec![]),
         StdinKind::Pipe(b) | StdinKind::File(b) => {
@@ -640,7 +666,14 @@ pub fn judge(sc: &Scenario, rr: &RunResult) -> Judged {
     let delivered = delivered_stdin(sc, rr);
     let dlen = delivered.as_ref().map(|d| d.len()).unwrap_or(0);
     let inputs = merge_inputs(delivered.as_deref(), &sc.flags);
-    let expect = run_model(&sc.script, &inputs);
+    let mut expect = run_model(&sc.script, &inputs);
+    // a script that cannot be decoded cannot succeed; inputs that could not be read (a read
+    // error other than EINTR on the stdin inputs document) were not merged
+    if sc.script_bad_byte.is_some() && sc.mode != Mode::Inline {
+        expect = Expect::Failure { why: "the script is not valid UTF-8".into() };
+    } else if stdin_read_error && sc.mode != Mode::EvalStdin {
+        expect = Expect::Failure { why: "reading the inputs document from stdin failed".into() };
+    }
     let expect_success = matches!(expect, Expect::Success { .. });
     let hard = !hard_kinds.is_empty();
     let mut j = Judged { viol: None, hard_fired: hard, benign_fired: benign, hard_kinds, expect_success, delivered: dlen, model_unknown: false };
@@ -655,8 +688,8 @@ pub fn judge(sc: &Scenario, rr: &RunResult) -> Judged {
     let stale = match &sc.out {
         OutDest::FileStale(s) => Some(s.clone().into_bytes()),
         OutDest::FileIsScript if sc.mode == Mode::File => Some(styled_source(sc).into_bytes()),
-        OutDest::FileIsStdin if sc.mode != Mode::EvalStdin => match &sc.stdin {
-            StdinKind::File(b) => Some(b.clone()),
+        OutDest::FileIsStdin if sc.mode != Mode::EvalStdin => match stdin_as_given(sc) {
+            StdinKind::File(b) => Some(b),
             _ => None,
         },
         _ => None,
@@ -783,7 +816,7 @@ pub fn judge(sc: &Scenario, rr: &RunResult) -> Judged {
     }
     // bounded liveness under benign faults only
     if j.viol.is_none() && !hard {
-        let calls = rr.log.len() as u64;
+        let calls = rr.log.iter().filter(|e| e.op != "getenv").count() as u64;
         let bytes: u64 = rr.log.iter().filter(|e| e.ret > 0 && (e.op == "read" || e.op == "write")).map(|e| e.ret as u64).sum();
         if calls > 4 * bytes + 64 {
             j.viol = fail("liveness-bound", format!("{} intercepted calls for {} bytes transferred", calls, bytes));
@@ -979,6 +1012,8 @@ pub fn pipeline_b(rng: &mut Rng, a_stdout: &[u8]) -> Scenario {
         flag_eq: false,
         script_first: false,
         path_style: 0,
+        script_bad_byte: None,
+        stdin_bad_byte: None,
     }
 }
 
@@ -1244,6 +1279,8 @@ pub fn signature(sc: &Scenario, v: &Viol) -> String {
             Rule::WErr { cls, errno, .. } => format!("werr:{}:{}", cls, errno),
             Rule::REof { cls, .. } => format!("reof:{}", cls),
             Rule::OpenErr { cls, errno } => format!("openerr:{}:{}", cls, errno),
+            Rule::Env { name, .. } => format!("env:{}", name),
+            Rule::UnEnv { name } => format!("unenv:{}", name),
         })
         .collect();
     format!("{}|{}|{}", v.clause, classes.join(","), rules.join(","))
@@ -1331,11 +1368,27 @@ pub fn fixed_corpus() -> Vec<(String, Scenario)> {
         flag_eq: false,
         script_first: false,
         path_style: 0,
+        script_bad_byte: None,
+        stdin_bad_byte: None,
     };
     let mut v = vec![
         ("F3-output-builtin".to_string(), base(vec![CStmt::OutVisible("sum".into())])),
         ("F3-output-constants".to_string(), base(vec![CStmt::OutBind("p".into(), CE::Lit(JV::Num(1.0))), CStmt::OutVisible("constants".into())])),
     ];
+    // F4: a piped inputs document that cannot be read (not valid UTF-8; a read error) was
+    // silently dropped and the run exited 0 without the inputs
+    {
+        let mut a = base(vec![CStmt::OutBind("x".into(), CE::InDot("a".into()))]);
+        a.stdin = StdinKind::Pipe(b"{\"a\": 1}".to_vec());
+        a.stdin_bad_byte = Some(6);
+        v.push(("F4-stdin-not-utf8".to_string(), a.clone()));
+        // `12` arrives as `1`, then the read fails: the prefix is a document of its own
+        let mut b = base(vec![CStmt::OutBind("x".into(), CE::InDot("value_1".into()))]);
+        b.stdin = StdinKind::Pipe(b"12".to_vec());
+        b.plan.rules.push(Rule::RChunks { cls: "0".into(), sizes: vec![1], star: true });
+        b.plan.rules.push(Rule::RErr { cls: "0".into(), call: 2, errno: 5, times: 1 });
+        v.push(("F4-stdin-read-error".to_string(), b));
+    }
     let dir = format!("{}/regressions", verif_dir());
     if let Ok(rd) = std::fs::read_dir(&dir) {
         let mut files: Vec<_> = rd.filter_map(|e| e.ok()).map(|e| e.path()).collect();
